@@ -66,13 +66,17 @@ def _field_data(ctx, n, nvdim):
     """Per-cell lengths, unit directions, array = dirs*mag with exact zeros."""
     rng = ctx.rng
     n = tuple(int(k) for k in n)
-    style = gen.pick(rng, ["wide", "wide", "tiny", "huge", "moderate", "integers"])
+    style = gen.pick(rng, ["wide", "wide", "tiny", "huge", "moderate", "integers", "big_integers"])
     if style == "wide":
         mag = 10.0 ** rng.uniform(-6, 150, size=n)
     elif style == "tiny":
         mag = 10.0 ** rng.uniform(-6, -2, size=n)
     elif style == "huge":
         mag = 10.0 ** rng.uniform(140, 150, size=n)
+    elif style == "big_integers":
+        # whole numbers whose squares do not fit into 64-bit integers (but they themselves
+        # do, exactly, in int64 and in float64)
+        mag = 10.0 ** rng.uniform(9.5, 15, size=n)
     else:
         mag = 10.0 ** rng.uniform(-2, 4, size=n)
     if nvdim == 1:
@@ -86,9 +90,9 @@ def _field_data(ctx, n, nvdim):
         dirs[axis_al] = onehot[axis_al]
         dirs /= np.sqrt(np.sum(dirs * dirs, axis=-1, keepdims=True))
     arr = dirs * mag[..., None]
-    if style == "integers":
+    if style in ("integers", "big_integers"):
         arr = np.round(arr) + (np.round(arr) == 0).all(axis=-1, keepdims=True) * 1.0
-    pz = gen.pick(rng, [0.0, 0.3, 0.3, 0.7, 1.0]) if style != "integers" else 0.3
+    pz = gen.pick(rng, [0.0, 0.3, 0.3, 0.7, 1.0]) if style not in ("integers", "big_integers") else 0.3
     zero = rng.random(n) < pz
     arr[zero] = 0.0
     length = np.sqrt(np.sum(arr * arr, axis=-1))
@@ -120,10 +124,20 @@ def _target(ctx, spec, kind=None):
     # function of position: pure, looks the containing cell up in my table
     pmin, cell, table, nn = spec.pmin.copy(), spec.cell.copy(), tarr.copy(), spec.n.copy()
 
+    mixed = rng.random() < 0.4
+    if mixed:
+        # a function that returns whole numbers as Python ints (`0 if outside else Ms * w`)
+        # and everything else as floats; the first cell of the mesh gets a whole number
+        table[(0,) * len(n)] = float(gen.pick(rng, [0, 3, 868600]))
+        whole = rng.random(n) < 0.2
+        table[whole] = np.round(table[whole])
+        tarr = table.copy()
+
     def fun(p):
         q = (np.atleast_1d(np.asarray(p, dtype=float)) - pmin) / cell
         idx = tuple(int(v) for v in np.clip(np.floor(q), 0, nn - 1))
-        return float(table[idx])
+        v = float(table[idx])
+        return int(v) if (mixed and v.is_integer() and abs(v) < 2**62) else v
 
     return kind, fun, tarr
 
@@ -273,6 +287,9 @@ def getter(ctx):
     if style == "integers" and rng.random() < 0.6:
         # whole numbers in an integer-typed field: its lengths and unit vectors are real
         kwd["dtype"] = gen.pick(rng, [int, np.int64, np.int32])
+        ctx.event("getter.integer_typed_field")
+    elif style == "big_integers" and rng.random() < 0.8:
+        kwd["dtype"] = gen.pick(rng, [int, np.int64])
         ctx.event("getter.integer_typed_field")
     f = gen.via_history(None, df.Field(mesh, nvdim=nvdim, value=arr.copy(), vdims=vdims,
                                        valid=valid.copy(), unit=fu, **kwd))
